@@ -1,8 +1,8 @@
 package checks
 
 import (
-	"errors"
 	"encoding/json"
+	"errors"
 	"fmt"
 	"strings"
 	"testing"
@@ -612,7 +612,7 @@ func (d *donorNonrevBuilder) CreateProof(c *big.Int) gabi.Proof {
 	pd.NonRevocationProof = d.commit.BuildProof(c) // alpha response left in
 	return pd
 }
-func (d *donorNonrevBuilder) PublicKey() *gabikeys.PublicKey              { return d.pk }
+func (d *donorNonrevBuilder) PublicKey() *gabikeys.PublicKey             { return d.pk }
 func (d *donorNonrevBuilder) SetProofPCommitment(*gabi.ProofPCommitment) {}
 
 // ownSecretRandomizerBuilder is a Byzantine holder's wrapper around an honest disclosure builder: it
@@ -625,6 +625,8 @@ type ownSecretRandomizerBuilder struct {
 func (o *ownSecretRandomizerBuilder) Commit(map[string]*big.Int) ([]*big.Int, error) {
 	return o.inner.Commit(map[string]*big.Int{"secretkey": o.rnd})
 }
-func (o *ownSecretRandomizerBuilder) CreateProof(c *big.Int) gabi.Proof          { return o.inner.CreateProof(c) }
-func (o *ownSecretRandomizerBuilder) PublicKey() *gabikeys.PublicKey              { return o.inner.PublicKey() }
+func (o *ownSecretRandomizerBuilder) CreateProof(c *big.Int) gabi.Proof {
+	return o.inner.CreateProof(c)
+}
+func (o *ownSecretRandomizerBuilder) PublicKey() *gabikeys.PublicKey             { return o.inner.PublicKey() }
 func (o *ownSecretRandomizerBuilder) SetProofPCommitment(*gabi.ProofPCommitment) {}
